@@ -261,7 +261,8 @@ fn sc_percentage(ctx: &mut Ctx) {
         return;
     }
     let pct = *ctx.pick_free(&[150u64, 0, 1, 100, 99, 0x1_0000_0000, u64::MAX]);
-    let out_coin = *ctx.pick_free(&[2_000_000u64, 19_000_000, 4_990_000_000]);
+    // the last one is more than everything offered: the helper then fails in its balancing step
+    let out_coin = *ctx.pick_free(&[2_000_000u64, 19_000_000, 4_990_000_000, 6_000_000_000]);
     let strat = ctx.choose_free(2) as u8;
     ctx.observe(&(mask, pct, out_coin, strat));
     let p = Params::mainnet();
@@ -284,6 +285,9 @@ fn sc_percentage(ctx: &mut Ctx) {
         Err(pn) => ctx.violation(panic_sig(P, "add_inputs_from_and_change_with_collateral_return", &pn), format!("{} : {}", what, pn.msg)),
         Ok(Err(_)) => {
             ctx.hit("percentage-helper-err");
+            if out_coin > 5_100_000_000 {
+                ctx.hit("percentage-helper-err-in-balancing");
+            }
             match fields(&tb) {
                 Ok(f) => {
                     if f.ret.is_some() || f.total.is_some() {
@@ -333,7 +337,7 @@ pub fn run(tier: Tier, seed: u64) -> i32 {
     rep.rule = "collateral input sets of size 1..3 over 5 candidates (ADA at three widths, ADA+A, ADA+A+B) x {set_collateral_return_and_total with 9 return coins around min-ADA / the input total x 6 asset choices (exact, fewer, more, different, none, partial); set_total_collateral_and_return with 9 totals} x coins_per_byte {4310, 1} x both orders of setting collateral and balancing; percentage helper: collateral sets (incl. none) x 7 percentages x 3 output sizes x 2 strategies. distinct = distinct argument tuples".into();
     rep.assume("the raw pass-through setters set_collateral_return / set_total_collateral validate nothing by design and are not entry points of this property");
     rep.trusted_base = vec!["notes/ledger_rules.md §7".into(), "refcbor".into()];
-    rep.required_hits = vec!["ok:return_and_total", "ok:total_and_return", "ok:percentage-helper", "equation-holds", "asset-carrying-collateral", "err:assets-left-in-total", "err:return-below-min-ada", "err:total-exceeds-inputs", "percentage-helper-err", "pct-with-remainder"];
+    rep.required_hits = vec!["ok:return_and_total", "ok:total_and_return", "ok:percentage-helper", "equation-holds", "asset-carrying-collateral", "err:assets-left-in-total", "err:return-below-min-ada", "err:total-exceeds-inputs", "percentage-helper-err", "percentage-helper-err-in-balancing", "pct-with-remainder"];
     for name in ["explicit", "percentage"] {
         let f = scenario(name, tier).unwrap();
         let st = explore(name, &*f, &Opts::new(seed));
